@@ -115,7 +115,7 @@ def oracle_case(cid, c, out):
                 seen.add(tuple(g[:5]))
             if res == "err":
                 st["err"] += 1
-        elif f[0] == "R":
+        elif f[0] in ("R", "Y"):
             st["restart"] += 1
         elif f[0] == "S":
             st["snap"] += 1
@@ -134,7 +134,7 @@ def oracle_case(cid, c, out):
             fails.append("applied data shrank at %s: %d -> %d" % (op, prev_len, jl))
         if f[0] in ("T", "P", "K"):
             st["snapop"] = st.get("snapop", 0) + 1
-        frozen = ("D", "X", "S", "R", "T", "P", "K") if kind == "A" else ("S", "R")   # kind B: T/P/K are whole rpcs that apply
+        frozen = ("D", "X", "S", "R", "Y", "T", "P", "K") if kind == "A" else ("S", "R")   # kind B: T/P/K are whole rpcs that apply
         if f[0] in frozen and (s != prev_s or jl != prev_len):
             fails.append("%s changed the replica state: synced %s -> %s, journal %d -> %d" % (op, prev_s, s, prev_len, jl))
         changed = [cl for cl in s if s[cl] != prev_s.get(cl)]
@@ -222,7 +222,7 @@ def oracle_m0(cases, impl):
             if len(r) != 4:
                 break
             cur = (r[1], r[2])
-            if op.startswith("R:") and prev is not None and cur != prev:
+            if (op.startswith("R:") or op.startswith("Y:")) and prev is not None and cur != prev:
                 fails.append(dict(name="m0-" + cid, signature=M0_SIGNATURE,
                                   case=dict(cases_tsv=["\t".join([cid] + c)], impl=out, before=prev, after=cur),
                                   what="restart changed the replica state on a non-syncer-only receiver: %s -> %s "
